@@ -20,6 +20,8 @@ import common
 from common import Check, run_tlc, run_oalv_parallel, workdir
 
 TOP = {
+    # the version string the base declares is the base's, whatever revision the emitter itself would write
+    "openapi": {"v1": "3.0.1", "v2": "3.0.0"},
     "info": {"v1": {"title": "Base One", "version": "1.0"},
              "v2": {"title": "Base Two", "version": "2.0", "description": "second", "contact": {"name": "c"}}},
     "servers": {"v1": [{"url": "https://a.example"}],
